@@ -49,7 +49,7 @@ Definition hinfo : Type := (gen * srm)%type.
 
 (* ---------- statements and operations ---------- *)
 Inductive stmt :=
-  | SDef (f : fid) (decl : list key) (sr : srd)      (* @service(decl..., supports_response=sr) def f(**kw): ... *)
+  | SDef (f : fid) (decl : list key) (sr : srd)      (* @service(decl..., supports_response=sr) def f(kwargs): ... *)
   | SDel (f : fid).                                  (* del f *)
 
 Inductive op :=
@@ -133,15 +133,14 @@ Definition refresh (s : st) (k : key) : st :=
   | Some _, Some r => set_reg s (upd (s_reg s) k (Some (f_gen r, f_sr r)))
   | _, _ => s
   end.
-Definition remove' (cfg : deviations) (s : st) (k : key) : st :=
-  let s1 := remove s k in if d_stale_handler cfg then s1 else refresh s1 k.
-
 Definition upd_rec (g : gen) (f : frec -> frec) (l : list frec) : list frec :=
   map (fun r => if N.eqb (f_gen r) g then f r else r) l.
 Definition with_held (h : list key) (r : frec) :=
   mk_frec (f_ctx r) (f_name r) (f_gen r) (f_sr r) (f_decl r) h (f_bound r) (f_tracked r) (f_pending r).
 Definition with_bound (b : bool) (r : frec) :=
   mk_frec (f_ctx r) (f_name r) (f_gen r) (f_sr r) (f_decl r) (f_held r) b (f_tracked r) (f_pending r).
+Definition with_tracked (b : bool) (r : frec) :=
+  mk_frec (f_ctx r) (f_name r) (f_gen r) (f_sr r) (f_decl r) (f_held r) (f_bound r) b (f_pending r).
 Definition with_pending (b : bool) (r : frec) :=
   mk_frec (f_ctx r) (f_name r) (f_gen r) (f_sr r) (f_decl r) (f_held r) (f_bound r) (f_tracked r) b.
 
@@ -150,7 +149,8 @@ Definition with_pending (b : bool) (r : frec) :=
 Definition release (cfg : deviations) (legacy : bool) (s : st) (r : frec) : st :=
   let ks := if legacy && d_dup_set cfg then nodupN (f_held r) else f_held r in
   let s1 := set_funcs s (upd_rec (f_gen r) (with_held []) (s_funcs s)) in
-  fold_left (remove' cfg) ks s1.
+  let s2 := fold_left remove ks s1 in
+  if d_stale_handler cfg then s2 else fold_left refresh ks s2.
 
 (* the registration loop of trigger_init / decorator start.  [abort]: stop at the first rejected name (D120) *)
 Fixpoint reg_loop (abort : bool) (c : cid) (h : hinfo) (ks : list key) (s : st) (held : list key)
@@ -175,23 +175,27 @@ Definition unbind (cfg : deviations) (legacy : bool) (s : st) (r : frec) : st :=
        then (if d_pending_zombie cfg then s1 else set_funcs s1 (upd_rec (f_gen r) (with_pending false) (s_funcs s1)))
        else release cfg legacy s1 r.
 
-(* ast_functiondef for a function decorated with @service.  [started]: the context's auto_start flag *)
+(* function object r (already in s_funcs, holding nothing) registers everything it declares:
+   legacy trigger_init's service loop / ServiceDecorator.start.  A legacy function whose loop was aborted (D120) is not
+   recorded in its context (trigger_register is never reached) *)
+Definition commit (abort : bool) (s : st) (r : frec) : st :=
+  let '(s', held, ok) := reg_loop abort (f_ctx r) (f_gen r, f_sr r) (f_decl r) s [] in
+  set_funcs s' (upd_rec (f_gen r) (fun x => with_tracked ok (with_pending false (with_held held x))) (s_funcs s')).
+
+(* ast_functiondef for a function decorated with @service.  [started]: the context's auto_start flag.
+   Order in the code: the new function object registers (trigger_init / dm.start()), then the name is rebound and the
+   previous object is finalised: register-before-remove *)
 Definition do_def (cfg : deviations) (legacy started : bool) (c : cid) (f : fid) (decl : list key) (d : srd) (s : st) : st :=
   let g := s_next s in
   let m := eff_sr legacy d in
   let s0 := set_next s (g + 1)%N in
   let old := find_bound s0 c f in
-  let '(s1, nr) :=
-    if legacy then
-      let '(s', held, ok) := reg_loop (d_alias_abort cfg) c (g, m) decl s0 [] in
-      (s', mk_frec c f g m decl held true ok false)
-    else if d_no_alias cfg && (1 <? N.of_nat (length decl))%N then
-      (s0, mk_frec c f g m decl [] true false false)             (* vol.Length(max=1): manager INVALID *)
-    else if started then
-      let '(s', held, _) := reg_loop false c (g, m) decl s0 [] in
-      (s', mk_frec c f g m decl held true true false)
-    else (s0, mk_frec c f g m decl [] true true true) in
-  let s2 := set_funcs s1 (s_funcs s1 ++ [nr]) in
+  let invalid := negb legacy && d_no_alias cfg && (1 <? N.of_nat (length decl))%N in   (* vol.Length(max=1): manager INVALID *)
+  let pend := negb legacy && negb invalid && negb started in
+  let nr := mk_frec c f g m decl [] true (negb invalid) pend in
+  let s1 := set_funcs s0 (s_funcs s0 ++ [nr]) in
+  let s2 := if legacy then commit (d_alias_abort cfg) s1 nr
+            else if invalid || pend then s1 else commit false s1 nr in
   match old with Some r => unbind cfg legacy s2 r | None => s2 end.
 
 Definition do_del (cfg : deviations) (legacy : bool) (c : cid) (f : fid) (s : st) : st :=
@@ -207,13 +211,9 @@ Definition run_body (cfg : deviations) (legacy started : bool) (c : cid) (b : li
   fold_left (run_stmt cfg legacy started c) b s.
 
 (* global_ctx.start(): `for dm in self.dms_delay_start: create_task(dm.start())` *)
-Definition start_one (c : cid) (s : st) (g : gen) : st :=
+Definition start_one (s : st) (g : gen) : st :=
   match find (fun r => N.eqb (f_gen r) g) (s_funcs s) with
-  | Some r =>
-      if f_pending r then
-        let '(s', held, _) := reg_loop false c (g, f_sr r) (f_decl r) s [] in
-        set_funcs s' (upd_rec g (fun x => with_pending false (with_held held x)) (s_funcs s'))
-      else s
+  | Some r => if f_pending r then commit false s r else s
   | None => s
   end.
 Definition pending_gens (s : st) (c : cid) : list gen :=
@@ -223,7 +223,7 @@ Definition start_order (cfg : deviations) (oracle pend : list gen) : list gen :=
   then filter (fun g => memN g pend) oracle ++ filter (fun g => negb (memN g oracle)) pend
   else pend.
 Definition start_ctx (cfg : deviations) (oracle : list gen) (s : st) (c : cid) : st :=
-  fold_left (start_one c) (start_order cfg oracle (pending_gens s c)) s.
+  fold_left start_one (start_order cfg oracle (pending_gens s c)) s.
 
 (* global_ctx.stop() followed by GlobalContextMgr.delete *)
 Definition stop_ctx (cfg : deviations) (legacy : bool) (s : st) (c : cid) : st :=
